@@ -8,6 +8,7 @@ import (
 	"time"
 
 	tally "github.com/uber-go/tally/v4"
+	"github.com/uber-go/tally/v4/m3"
 )
 
 // Lock-step validation of the real registry against Model.Registry (driver: lean/Tally/Drv/Registry.lean).
@@ -32,7 +33,8 @@ type regThread struct {
 	sid    int // model scope id of the current handle (-1 none)
 	inObt  bool
 	preLk  bool // passed registry.subscope.pre-lock in the current obtain (hooks inside the write-locked region must not park)
-	rmSeen bool // already parked at registry.remove.pre-lock in the current obtain
+	rmSeen bool // (unused since both removals of the re-acquire path are schedule points)
+	rmN    int  // how many registry.remove.pre-lock parks of the current obtain have been translated (0, 1)
 	lastK  string
 	live   bool
 	opIdx  int  // index of the op the thread is parked in front of (valid while At == app.op)
@@ -55,6 +57,7 @@ type regRun struct {
 	recPre  int // records made through a handle whose Close had not been called (must all be delivered)
 	recAll  int
 	closedP map[tally.Scope]bool
+	alias   bool
 }
 
 func (rr *regRun) fail(kind, clause, reply string) {
@@ -89,6 +92,19 @@ func (rr *regRun) expect(t int, pc string) bool {
 }
 
 func identName(i int) string { return "s" + strconv.Itoa(i) }
+
+// alias mode: the scenarios run under the M3 sanitizer and children are obtained with Tagged({key: "v"}); the raw keys
+// 1 ("k 1") and 2 ("k+1") sanitize to key 3 ("k_1"), which is also a spelling of its own; key 4 ("other") is unrelated.
+var aliasSpelling = map[int]string{1: "k 1", 2: "k+1", 3: "k_1", 4: "other"}
+
+const aliasSanMap = "1:3,2:3"
+
+func (rr *regRun) obtainChild(i int) tally.Scope {
+	if rr.alias {
+		return rr.w.root.Tagged(map[string]string{aliasSpelling[i]: "v"})
+	}
+	return rr.w.root.SubScope(identName(i))
+}
 
 // the registry key of identity i under the root without prefix/tags ("" for the root itself)
 func (rr *regRun) keyIdent(k string) int {
@@ -249,7 +265,7 @@ func (rr *regRun) stepThread(t *regThread) {
 					return
 				}
 				rr.ev("obtain %d %d", id, op.ident)
-				t.inObt, t.preLk, t.rmSeen = true, false, false
+				t.inObt, t.preLk, t.rmSeen, t.rmN = true, false, false, 0
 			}
 		}
 	case "registry.subscope.pre-rlock":
@@ -288,15 +304,28 @@ func (rr *regRun) stepThread(t *regThread) {
 		afterVisitObt()
 		t.rmSeen = true
 	case "registry.remove.pre-lock":
-		rr.ev("step %d 0", id) // delete by identity
-		rr.ev("step %d 0", id) // RLock
-		rr.ev("step %d 0", id) // clear
-		rr.ev("step %d 0", id) // RUnlock
-		if to != "registry.subscope.pre-lock" {
-			rr.fail("differ", "unexpected-label", to)
+		if t.rmN == 0 {
+			// first removal (the raw key): write lock + delete by identity, RLock again, RUnlock for the second removal
+			t.rmN = 1
+			rr.ev("step %d 0", id) // obtUnlocked: delete raw key if it still points to the scope
+			rr.ev("step %d 0", id) // obtRelock
+			rr.ev("step %d 0", id) // obtAfter2: RUnlock
+			if to != "registry.remove.pre-lock" {
+				rr.fail("differ", "unexpected-label", to)
+			} else {
+				rr.expect(id, "obtUnlocked2")
+			}
 		} else {
-			rr.expect(id, "obtWantLock")
-			t.preLk = true
+			rr.ev("step %d 0", id) // obtUnlocked2: delete sanitized key if it still points to the scope
+			rr.ev("step %d 0", id) // obtRelock2
+			rr.ev("step %d 0", id) // clear
+			rr.ev("step %d 0", id) // RUnlock
+			if to != "registry.subscope.pre-lock" {
+				rr.fail("differ", "unexpected-label", to)
+			} else {
+				rr.expect(id, "obtWantLock")
+				t.preLk = true
+			}
 		}
 	case "registry.subscope.pre-lock":
 		// anything the write-locked region delivered (closed scope still registered) is in the log now
@@ -315,13 +344,29 @@ func (rr *regRun) stepThread(t *regThread) {
 }
 
 func runC07Lock(c *Ctx, r *Rng, ch Chooser, cached bool, progs [][]regOp, passes int, sig string) []string {
+	return runC07LockA(c, r, ch, cached, false, progs, passes, sig)
+}
+
+func runC07LockA(c *Ctx, r *Rng, ch Chooser, cached, alias bool, progs [][]regOp, passes int, sig string) []string {
+	if alias {
+		o := m3.DefaultSanitizerOpts
+		worldSanitize = &o
+	}
 	w := newWorld(cached, 0, 1, false)
-	rr := &regRun{c: c, w: w, d: c.Drv, ptrSid: map[tally.Scope]int{}, sidPtr: map[int]tally.Scope{}, keyID: map[string]int{}, sig: sig, closedP: map[tally.Scope]bool{}}
+	worldSanitize = nil
+	rr := &regRun{c: c, w: w, d: c.Drv, ptrSid: map[tally.Scope]int{}, sidPtr: map[int]tally.Scope{}, keyID: map[string]int{}, sig: sig, closedP: map[tally.Scope]bool{}, alias: alias}
 	rr.ptrSid[w.root], rr.sidPtr[0] = 0, w.root
 	for i := 1; i <= 4; i++ {
-		rr.keyID[tally.VerifKeyForPrefixedStringMaps(identName(i), nil)] = i
+		if alias {
+			rr.keyID[tally.VerifKeyForPrefixedStringMaps("", nil, map[string]string{aliasSpelling[i]: "v"})] = i
+		} else {
+			rr.keyID[tally.VerifKeyForPrefixedStringMaps(identName(i), nil)] = i
+		}
 	}
 	rr.ask("begin")
+	if alias {
+		rr.ask("san " + aliasSanMap)
+	}
 	s := NewSched(nil)
 	rr.s = s
 	byName := map[string]*regThread{}
@@ -345,10 +390,7 @@ func runC07Lock(c *Ctx, r *Rng, ch Chooser, cached bool, progs [][]regOp, passes
 		case "counter.value:0", "counter.deliver":
 			return t.inObt && !t.preLk
 		case "registry.remove.pre-lock":
-			if t.inObt && !t.preLk && !t.rmSeenHook() {
-				return true
-			}
-			return false
+			return t.inObt && !t.preLk // both removals (raw key, sanitized key) of the re-acquire path
 		}
 		return false
 	}
@@ -364,7 +406,7 @@ func runC07Lock(c *Ctx, r *Rng, ch Chooser, cached bool, progs [][]regOp, passes
 				switch op.kind {
 				case "obtain":
 					tt.hookRm = false
-					tt.sc = w.root.SubScope(identName(op.ident))
+					tt.sc = rr.obtainChild(op.ident)
 					tt.ctr = tt.sc.Counter("c")
 				case "record":
 					if tt.ctr != nil {
@@ -487,7 +529,7 @@ func genRegProg(r *Rng, idents int) []regOp {
 }
 
 func suiteC07Lock(c *Ctx) {
-	c.Cov.Rule = "lock-step validation: 1-2 application threads running random programs of {obtain identity, record, Close} on 1-2 identities against 1-2 report passes, one shard, plain and cached reporter; the model supplies the set of threads that can run without blocking, every hook-to-hook transition of the real code is replayed as model events and rejected if the model does not allow it; the final model state is judged by the evaluated invariants (token conservation, no pre-close token dropped, live scopes registered) and the number of delivered increments is compared; nontrivial = a pass or re-acquire is interleaved with another thread's registry action; distinct by trace. Thorough: all schedules of small scenarios"
+	c.Cov.Rule = "lock-step validation: 1-2 application threads running random programs of {obtain identity, record, Close} on 1-2 identities (40% of the runs: under a sanitizer, with two raw spellings of one identity and the sanitized spelling itself) against 1-2 report passes, one shard, plain and cached reporter; the model supplies the set of threads that can run without blocking, every hook-to-hook transition of the real code is replayed as model events and rejected if the model does not allow it; the final model state is judged by the evaluated invariants (token conservation, no pre-close token dropped, live scopes registered) and the number of delivered increments is compared; nontrivial = a pass or re-acquire is interleaved with another thread's registry action; distinct by trace. Thorough: all schedules of small scenarios"
 	n := c.N(250, 4000)
 	for i := 0; i < n; i++ {
 		r := c.Rng.Fork()
@@ -497,7 +539,19 @@ func suiteC07Lock(c *Ctx) {
 		for k := 0; k < nApp; k++ {
 			progs = append(progs, genRegProg(r, idents))
 		}
-		tr := runC07Lock(c, r, &randChooser{r: r}, r.Bool(), progs, r.Range(1, 2), "c07-lockstep")
+		alias := r.Chance(40)
+		if alias {
+			// raw spellings 1 and 2 share the identity 3; some programs also use the sanitized spelling itself
+			for _, pg := range progs {
+				for k := range pg {
+					if pg[k].kind == "obtain" {
+						pg[k].ident = r.Range(1, 3)
+					}
+				}
+			}
+			c.Cov.Hit("alias-mode")
+		}
+		tr := runC07LockA(c, r, &randChooser{r: r}, r.Bool(), alias, progs, r.Range(1, 2), "c07-lockstep")
 		key := strings.Join(tr, " ")
 		c.Cov.Eval(key, strings.Contains(key, "passUnlocked") || strings.Contains(key, "obtSwap") || strings.Contains(key, "obtUnlocked"))
 		c.Cov.Schedules++
